@@ -14,7 +14,7 @@ ASSUME = ["not judged (UNSPECIFIED, counted): whitespace in the search, empty al
           "'**' not forming a whole segment; when R4 says MAY_RAISE a SpilException or a (typed, query-free) list are both accepted",
           "do_extrapolate=True is judged only for: no foreign exception, typed, query-free, duplicate-free, and containing the string of every "
           "plain result (the statement does not define the extrapolated set)"]
-BUDGET = {"quick": 16000, "thorough": 240000}
+BUDGET = {"quick": 16000, "thorough": 640000}
 NSHARDS = 16
 
 
